@@ -5,6 +5,17 @@ R1 containment lemma by forward must-dataflow of path facts at every
 R2 ownership of the file-opening primitive and of the configured paths;
 R3 range conservation in `_set_range` / `_BoundedFile.read` over linear forms;
 R4 status wiring (304 / 206 / 200) in `StaticRoute.__call__`.
+
+Wave 8: R3 also requires that a result WITHOUT a content range (a plain 200)
+is returned only on a path where the range is None or the file is empty -
+every satisfiable range form is a 206, also when it covers the whole file
+(W: `Range: bytes=0-` answered 200 without Content-Range);  R4 / R9: no test
+that decides whether 304 is answered, and no comparison of If-Modified-Since,
+reads the server's clock (table CLOCK_CALLS; W: If-Modified-Since ahead of
+the server clock on an unmodified file gets 200 + body);  R11: undecodable
+request-path bytes reach the route as U+FFFD, which its disallowed-characters
+test rejects (WSGI constructor evaluated concretely on sample PATH_INFO
+values; W: /static/caf\\xe9.txt serves caf\\u00e9.txt).
 """
 
 from __future__ import annotations
@@ -16,7 +27,7 @@ from .. import flow
 from ..cfg import cfg_of
 from ..model import AnchorError, Class, Func, UNKNOWN, UnknownIdiom, dotted, func_owner_class, short, walk_no_nested
 from .c15_helpers import Provenance
-from .c16_helpers import NONE, Lin, LinExec, PathFacts, seek_position
+from .c16_helpers import NONE, UNK, CtorPathEval, Lin, LinExec, PathFacts, seek_position
 from .common import implied, is_self_attr, single, walk_self
 
 MOD = 'falcon.routing.static'
@@ -221,6 +232,7 @@ def r3_range(run):
     one = Lin.const(1)
     n_ranged = 0
     n_raise = 0
+    n_plain = 0
 
     def nonpos(path, x, strict=False):
         """x <= 0 (strict: x < 0) from the path conditions, from st_size >= 0
@@ -289,8 +301,23 @@ def r3_range(run):
         if not isinstance(length, Lin):
             raise UnknownIdiom('_set_range: length expression in %s is outside the linear evaluator' % short(node))
         if crange is NONE:
-            ok = stream == ('obj', fh) and isinstance(length, Lin) and (length == size or (length.is_zero() and any(k == 'eq0' and (l == size or l == -size) for k, l in path.conds)))
+            ok = stream == ('obj', fh) and isinstance(length, Lin) and (length == size or (length.is_zero() and path.implies_le0(size)))
             run.check(ok, 'without a content range the whole file is served: the unwrapped handle and length == size', f, node, where=where, witness=wit)
+            # every Range that req.range accepted and that is not answered 416 is answered 206 with a
+            # Content-Range - also when the slice happens to be the whole file (bytes=0-, bytes=0-<size-1>,
+            # bytes=-<size>): a result without a content range is justified only by "no Range" or "empty file"
+            ratom = Lin.atom(rng)
+            no_range = path.nulls.get(rng) is True or any(k == 'eq0' and l in (ratom, -ratom) for k, l in path.conds)
+            empty = path.implies_le0(size)
+            given = path.nulls.get(rng) is False or any(k == 'ne0' and l in (ratom, -ratom) for k, l in path.conds)
+            if not (no_range or empty or given):
+                raise UnknownIdiom('_set_range: %s is reached without a decision on whether %s is None' % (short(node), rng))
+            n_plain += 1
+            run.check(no_range or empty, 'a result without a content range (a plain 200) is returned only when there is no Range or the file is empty: every '
+                      'satisfiable range form (first-last, first-, -suffix) is answered 206 with Content-Range, also when it covers the whole file',
+                      f, '%s [no content range]' % short(node), where=where, witness=wit + ['conditions: %s' % [(k, l.key()) for k, l in path.conds]],
+                      runtime_witness='Range: bytes=0- on a non-empty file is answered 200 without Content-Range while bytes=0-<size-1> and bytes=-<size> '
+                                      'get 206 bytes 0-<size-1>/<size>')
             continue
         if not (isinstance(crange, tuple) and crange[0] == 'tuple' and len(crange[1]) == 3 and all(isinstance(x, Lin) for x in crange[1])):
             raise UnknownIdiom('_set_range: content-range shape in %s' % short(node))
@@ -321,6 +348,8 @@ def r3_range(run):
         raise AnchorError('_set_range: fewer than two ranged return paths (%d)' % n_ranged)
     if not n_raise:
         raise AnchorError('_set_range never raises HTTPRangeNotSatisfiable')
+    if not n_plain:
+        raise AnchorError('_set_range never returns the plain file (no content range) for a request without Range')
     run.sample({'rule': 'R3', 'paths': len(paths), 'ranged_returns': n_ranged})
     # _BoundedFile
     c = p.cls(BOUNDED)
@@ -370,6 +399,63 @@ def r3_range(run):
         rv = path.outcome[1]
         run.check(isinstance(rv, tuple) and rv and rv[0] == 'result' and rv[3] is rd[4], '_BoundedFile.read returns the bytes it read', read,
                   path.outcome[2])
+
+
+# ---------------------------------------------------------------------------
+# the server clock (frozen look-alike table, one reason per line)
+# ---------------------------------------------------------------------------
+
+CLOCK_CALLS = {
+    'datetime.datetime.now': 'the current time',
+    'datetime.datetime.utcnow': 'the current time (naive UTC)',
+    'datetime.datetime.today': 'the current local time',
+    'datetime.date.today': 'the current date',
+    'time.time': 'seconds since the epoch, now',
+    'time.time_ns': 'nanoseconds since the epoch, now',
+    'time.monotonic': 'a clock reading',
+    'time.perf_counter': 'a clock reading',
+}
+CLOCK_CALLS_NOARG = {
+    'time.gmtime': 'gmtime() without an argument converts the current time',
+    'time.localtime': 'localtime() without an argument converts the current time',
+    'time.ctime': 'ctime() without an argument formats the current time',
+    'time.strftime': 'strftime(fmt) without a time tuple formats the current time',
+}
+FALCON_CLOCK_NAMES = {'utcnow': 'falcon.util.misc.utcnow is datetime.utcnow', '_utcnow': 'falcon.util.misc._utcnow is partial(datetime.now, utc)',
+                      'http_now': 'falcon.util.misc.http_now formats the current time'}
+
+
+def reads_clock(p, f: Func, e, at=None, _depth=0, _seen=None):
+    """The first call inside expression `e` of `f` that reads the server's
+    clock (tables above; one level into same-package helpers; through locals
+    when `at` = (reaching-definitions, cfg node id) is given), else None."""
+    seen = set() if _seen is None else _seen
+    for x in walk_self(e):
+        if isinstance(x, ast.Call):
+            q = p.resolve_expr(f.module, x.func, f)
+            if q in CLOCK_CALLS:
+                return x
+            if q in CLOCK_CALLS_NOARG and len(x.args) + len(x.keywords) <= (1 if q == 'time.strftime' else 0):
+                return x
+            if isinstance(q, str) and q.startswith('falcon.') and q.rsplit('.', 1)[-1] in FALCON_CLOCK_NAMES:
+                return x
+            if _depth < 2:
+                g = p.callee(f, x)
+                if isinstance(g, Func) and g.qual not in seen:
+                    seen.add(g.qual)
+                    if any(reads_clock(p, g, st, None, _depth + 1, seen) is not None for st in g.node.body):
+                        return x
+        elif isinstance(x, ast.Name) and isinstance(x.ctx, ast.Load) and at is not None:
+            rd, nid = at
+            for d in rd.at(nid, x.id):
+                if ('d', d.idx) in seen or d.kind not in ('assign', 'aug') or d.value is None:
+                    continue
+                seen.add(('d', d.idx))
+                v = d.value if d.kind == 'assign' else d.value.value
+                c = reads_clock(p, f, v, (rd, d.node), _depth, seen)
+                if c is not None:
+                    return c
+    return None
 
 
 # ---------------------------------------------------------------------------
@@ -424,6 +510,27 @@ def r4_status(run):
         bad = fwd or back
         run.check(bad is None, 'the 304 path neither follows nor reaches any store of a response body', f, n.ast,
                   witness=flow.describe_path(cfg, bad) if bad else None, runtime_witness='304 Not Modified with a body')
+    # the 304 decision is `mtime (whole seconds) <= If-Modified-Since` (RFC 7232 section 3.3) and nothing else that varies with the
+    # moment of the request: no test that decides whether the 304 store is reached reads the server's clock
+    from .c15_helpers import reaching
+    rdefs = reaching(p, f)
+    ids304 = {n.id for n in n304}
+    n_dec = 0
+    for t in cfg.live_nodes():
+        if t.kind != 'test':
+            continue
+        arms = {l: bool(ids304 & flow.reachable(cfg, [y])) for (y, l) in cfg.succ[t.id] if l in ('T', 'F')}
+        if len(arms) != 2 or arms['T'] == arms['F']:
+            continue
+        n_dec += 1
+        c = reads_clock(p, f, t.ast, (rdefs, t.id))
+        run.check(c is None, 'whether a conditional request is answered 304 depends on the file\'s mtime and If-Modified-Since only, never on the server\'s clock '
+                  '(a date later than "now" is not invalid: RFC 7232 dropped that rule of RFC 2616 14.25)', f, t.ast, where='%s:%s' % (f.file, t.lineno),
+                  witness=['%s reads the current time' % short(c)] if c is not None else None,
+                  runtime_witness='If-Modified-Since one hour ahead of the server clock (client or proxy clock skew) on an unmodified file: 200 with the full '
+                                  'body instead of 304')
+    if not n_dec:
+        raise AnchorError('%s: no test decides whether 304 is answered' % CALL)
     # set_stream(stream, length) + Accept-Ranges on every path that produced a stream
     for n in stream_nodes:
         calls = [c for c in n.calls() if dotted(c.func) == resp + '.set_stream']
@@ -761,7 +868,9 @@ def r9_validator_whole_seconds(run):
             return is_ims(e.func.value, nid, seen)
         if isinstance(e, ast.Name):
             ds = [d for d in rd.rd.at(nid, e.id) if d.idx not in seen]
-            return bool(ds) and all(d.kind == 'assign' and is_ims(d.value, d.node, tuple(seen) + (d.idx,)) for d in ds)
+            # (a definition `x = None` only withdraws the header; it does not make x something else)
+            real = [d for d in ds if not (d.kind == 'assign' and isinstance(d.value, ast.Constant) and d.value.value is None)]
+            return bool(real) and all(d.kind == 'assign' and is_ims(d.value, d.node, tuple(seen) + (d.idx,)) for d in real)
         return False
 
     n_cmp = 0
@@ -780,6 +889,13 @@ def r9_validator_whole_seconds(run):
                     break
                 if not isinstance(c.ops[0], (ast.Lt, ast.LtE, ast.Gt, ast.GtE, ast.Eq, ast.NotEq)):
                     raise UnknownIdiom('%s: If-Modified-Since is used in %s' % (CALL, short(c)))
+                if not rd.touches(y, n.id):
+                    clk = reads_clock(p, f, y, (rd.rd, n.id))
+                    if clk is not None:
+                        run.fail('If-Modified-Since is compared with the file\'s mtime only: the server\'s clock is no part of the validator comparison',
+                                 f, c, where=f.loc(c), witness=['%s reads the current time' % short(clk)],
+                                 runtime_witness='If-Modified-Since later than the server clock on an unmodified file: 200 with the full body instead of 304')
+                        break
                 tv = rd.ev(y, n.id)
                 n_cmp += 1
                 judge(tv, 'the instant compared with If-Modified-Since is the file\'s mtime truncated (not rounded, not raw) to whole seconds', c, c)
@@ -999,6 +1115,143 @@ def r10_range_bounds_numeric(run):
             raise AnchorError('%s: no ordering comparison between the first and the last bound of a first-last Range spec' % f.qual)
 
 
+# ---------------------------------------------------------------------------
+# R11
+# ---------------------------------------------------------------------------
+
+WSGI_REQ_INIT = 'falcon.request.Request.__init__'
+CHARS_PATTERN = '_DISALLOWED_CHARS_PATTERN'
+# PATH_INFO as a WSGI server hands it over (PEP 3333: the raw bytes decoded as ISO-8859-1)
+UNDECODABLE_PATHS = (
+    '/static/caf\xe9.txt',             # b'caf\xe9.txt': a Latin-1 respelling of "caf\u00e9.txt", not valid UTF-8
+    '/static/na\xefve/\xfcber.css',
+    '/static/\xc3\x28/\xa0\xa1.bin',  # a lead byte without its continuation byte, stray continuation bytes
+)
+DECODABLE_PATHS = (
+    '/static/caf\xc3\xa9.txt',         # UTF-8 "caf\u00e9.txt" tunnelled through ISO-8859-1
+    '/static/\xe2\x82\xac/\xf0\x9f\x98\x80.bin',
+    '/static/plain-ascii.txt',
+)
+
+
+def r11_undecodable_path_replaced(run):
+    """The static route decides on text: its sanitisation sees `req.path`, not the
+    bytes the client sent.  Two halves of one dependency:
+    (a) `StaticRoute.__call__` rejects (404) every remainder in which
+        `_DISALLOWED_CHARS_PATTERN` finds a character, and that pattern finds
+        U+FFFD - no path reaches `_open_file(<requested path>)` around the test;
+    (b) the WSGI `Request.__init__`, evaluated concretely on PATH_INFO samples
+        whose bytes are not valid UTF-8, stores a `self.path` that the pattern of
+        (a) rejects (every undecodable byte became U+FFFD), on every way through
+        the constructor; a sample that IS valid UTF-8 is stored as its decoding.
+    A constructor that keeps the ISO-8859-1 characters (strict decode + `except:
+    pass`), drops the bytes (errors='ignore') or raises lets a request whose bytes
+    name no file in the directory open another file / fail.
+    W: GET /static/caf%E9.txt as raw byte 0xE9, directory holding only
+    b'caf\xc3\xa9.txt': 200 with that file's content instead of 404."""
+    import re as _re
+
+    p = run.project
+    f = p.func(CALL)
+    cfg = cfg_of(f, p)
+    run.use_cfg(cfg)
+    # (a) the pattern and its guard
+    c, val = p.lookup_class_attr(MOD + '.StaticRoute', CHARS_PATTERN)
+    if val is None:
+        raise AnchorError('StaticRoute.%s not found' % CHARS_PATTERN)
+    if not (isinstance(val, ast.Call) and p.resolve_expr(c.module, val.func, None) == 're.compile' and val.args):
+        raise UnknownIdiom('StaticRoute.%s is not re.compile(<constant>): %s' % (CHARS_PATTERN, short(val)))
+    src = p.fold(c.module, val.args[0], c, None)
+    flags = 0
+    for extra in list(val.args[1:]) + [k.value for k in val.keywords]:
+        fl = p.resolve_expr(c.module, extra, None)
+        if fl not in ('re.UNICODE', 're.U', 're.DOTALL', 're.S'):
+            raise UnknownIdiom('StaticRoute.%s: flags %s' % (CHARS_PATTERN, short(extra)))
+    if not isinstance(src, str):
+        raise UnknownIdiom('StaticRoute.%s: the pattern does not fold to a string' % CHARS_PATTERN)
+    try:
+        pat = _re.compile(src, flags)
+    except _re.error as exc:
+        raise UnknownIdiom('StaticRoute.%s: %s' % (CHARS_PATTERN, exc))
+    run.check(pat.search('\ufffd') is not None, 'the disallowed-characters pattern of the static route finds U+FFFD (what an undecodable request byte is turned into)',
+              MOD + '.StaticRoute', '%s = %s' % (CHARS_PATTERN, short(val, 100)), where='%s:%s' % (c.module.relpath, val.lineno),
+              runtime_witness='a request path with bytes that are not UTF-8 passes the sanitisation as "caf\ufffd.txt" and is looked up on disk')
+
+    def is_search(e):
+        return (isinstance(e, ast.Call) and isinstance(e.func, ast.Attribute) and e.func.attr in ('search', 'findall', 'finditer')
+                and isinstance(e.func.value, ast.Attribute) and e.func.value.attr == CHARS_PATTERN
+                and isinstance(e.func.value.value, ast.Name) and e.func.value.value.id in ('self', 'cls', 'StaticRoute'))
+
+    clean = [(n.id, y, l) for n in cfg.live_nodes() if n.kind == 'test' for (y, l) in cfg.succ[n.id]
+             if l in ('T', 'F') and implied(n.ast, l == 'T', is_search) is False]
+    uses = [x for n in cfg.live_nodes() for x in n.walk() if is_search(x)]
+    if not uses:
+        if any(isinstance(x, ast.Attribute) and x.attr == CHARS_PATTERN for x in walk_self(f.node)):
+            raise UnknownIdiom('%s: %s is used otherwise than by .search(<remainder>) in a test' % (CALL, CHARS_PATTERN))
+        raise AnchorError('%s does not consult %s' % (CALL, CHARS_PATTERN))
+    params = f.params()
+    req = params[1]
+    from .c15_helpers import reaching
+    rdefs = reaching(p, f)
+    for u in uses:
+        a = u.args[0] if len(u.args) == 1 and not u.keywords else None
+        nid = rdefs.cfg_node(u)
+        derived = False
+        if isinstance(a, ast.Name) and nid is not None:
+            ds = rdefs.at(nid, a.id)
+            derived = bool(ds) and all(d.kind == 'assign' and any(dotted(x) == req + '.path' for x in walk_self(d.value)) for d in ds)
+        elif a is not None:
+            derived = any(dotted(x) == req + '.path' for x in walk_self(a))
+        if not derived:
+            raise UnknownIdiom('%s: %s is not applied to a local computed from %s.path' % (CALL, short(u), req))
+    sinks = [n.id for n in cfg.live_nodes() for cl in n.calls()
+             if isinstance(p.callee(f, cl), Func) and p.callee(f, cl).qual == OPEN and not (cl.args and is_self_attr(cl.args[0], FALLBACK))]
+    if not sinks:
+        raise AnchorError('%s does not call _open_file' % CALL)
+    for sk in sorted(set(sinks)):
+        path = flow.find_path(cfg, [cfg.entry], [sk], avoid_edges=clean)
+        run.check(path is None, 'every way to open the requested path crosses a branch on which the disallowed-characters pattern found nothing in the remainder',
+                  f, cfg.node(sk).ast, where='%s:%s' % (f.file, cfg.node(sk).lineno), witness=flow.describe_path(cfg, path) if path else None,
+                  runtime_witness='control characters / U+FFFD / reserved characters in the requested name reach io.open')
+    # (b) the WSGI constructor on undecodable and decodable PATH_INFO samples
+    g = p.func(WSGI_REQ_INIT)
+    gcfg = cfg_of(g, p)
+    run.use_cfg(gcfg)
+    evl = CtorPathEval(p, g, gcfg, 'path', 'PATH_INFO')
+    rw = ("GET /static/caf\\xe9.txt (one Latin-1 byte, not UTF-8) with only b'caf\\xc3\\xa9.txt' on disk: the static route opens that file and answers 200 "
+          'instead of 404')
+    for sample, decodable in [(x, False) for x in UNDECODABLE_PATHS] + [(x, True) for x in DECODABLE_PATHS]:
+        outs = evl.run(sample)
+        if not evl.raw_read:
+            raise AnchorError('%s does not read %s[%r] on the way to self.path' % (g.qual, evl.envp, 'PATH_INFO'))
+        if not outs or any(o[0] == 'nostore' for o in outs):
+            raise UnknownIdiom('%s: a way through the constructor stores no self.path' % g.qual)
+        want = sample.encode('iso-8859-1').decode('utf-8') if decodable else None
+        for kind, v, node in outs:
+            cons = 'self.path for PATH_INFO=%s' % ascii(sample)
+            where = g.loc(node) if node is not None else g.loc()
+            if kind == 'raised':
+                run.fail('the WSGI request constructor accepts every PATH_INFO (an undecodable path is a 404 of the static route, not an error)', g,
+                         '%s raises %s' % (cons, (v or 'an exception').rsplit('.', 1)[-1]), where=where,
+                         witness=['%s raises %s for this sample' % (short(node), v)] if node is not None else None, runtime_witness=rw)
+                continue
+            if v is UNK or not isinstance(v, str):
+                raise UnknownIdiom('%s: the value stored by `%s` for PATH_INFO=%s is computed by constructs the evaluator does not read'
+                                   % (g.qual, short(node), ascii(sample)))
+            if decodable:
+                run.check(v == want, 'a PATH_INFO that tunnels valid UTF-8 (or ASCII) is stored as its UTF-8 decoding', g, cons, where=where,
+                          witness=['stored: %s' % ascii(v), 'expected: %s' % ascii(want)],
+                          runtime_witness='a file with a non-ASCII name cannot be requested by its own name (404), or another file is served')
+                continue
+            rejected = pat.search(v) is not None or '\ufffd' in v     # (that the pattern finds U+FFFD is obligation (a))
+            if not rejected and not (set(v) <= set(sample)):
+                raise UnknownIdiom('%s: PATH_INFO=%s is stored as %s - neither replaced by U+FFFD nor kept / dropped; the rule has no verdict for this '
+                                   'error policy' % (g.qual, ascii(sample), ascii(v)))
+            run.check(rejected, 'a PATH_INFO whose bytes are not valid UTF-8 is stored with the undecodable bytes replaced by U+FFFD, which '
+                      'the static route\'s disallowed-characters pattern rejects (they are neither kept as ISO-8859-1 characters nor dropped)', g, cons,
+                      where=where, witness=['stored: %s' % ascii(v), 'by %s' % short(node), '%s.search(...) finds nothing' % CHARS_PATTERN], runtime_witness=rw)
+
+
 def check(run):
     run.assume('POSIX path semantics: os.path.sep == "/"; os.path.normpath leaves ".." only as leading components; '
                'os.path.join(D, x) == D + "/" + x for relative x (trusted base of the containment lemma)')
@@ -1025,3 +1278,6 @@ def check(run):
     run.rule('R9', r9_validator_whole_seconds, 'Last-Modified and the instant compared with If-Modified-Since are the mtime truncated to whole seconds', floor=3)
     run.rule('R10', r10_range_bounds_numeric, 'Request.range orders the bounds of a Range spec as int()-converted numbers, never as the text pieces '
              '(establishes first <= last, which _set_range relies on)', floor=2)
+    run.assume('ASGI: scope["path"] is decoded by the server (ASGI spec: percent-decoded, UTF-8 with undecodable bytes replaced)')
+    run.rule('R11', r11_undecodable_path_replaced, 'undecodable request-path bytes reach the static route as U+FFFD, which its disallowed-characters test '
+             'rejects (WSGI constructor evaluated on sample PATH_INFO values)', floor=8)
